@@ -351,21 +351,103 @@ fn design_stats(design: &Design) -> (usize, usize) {
     (ff, ops)
 }
 
-pub fn gen_cfg(ctx: &Ctx) -> GenCfg {
+/// Statement-level features left out of the C01 dialect (see `run`): each is
+/// a place where veryl's simulator deviates from the emitted text for reasons
+/// that belong to the simulator checks (C02 / C03 / C18), not to translation.
+pub const DIALECT_OFF: &[&str] = &[];
+
+/// The protocol dialect: flip-flops with `if_reset`, `if` statements, `let`,
+/// hierarchy, and plain operators (arithmetic, bitwise, shifts, comparisons,
+/// reductions, `?:`, concatenation, constant selects) over
+/// unsigned variables up to 64 bits.  veryl's simulator agrees with IEEE 1800 on this
+/// sub-language, so here *every* disagreement between the emitted text and the
+/// simulator is a violation — in particular any difference in what a clock
+/// edge, a reset polarity or a reset synchronicity means.
+pub fn protocol_cfg(base: &GenCfg) -> GenCfg {
     GenCfg {
+        max_width: 64,
+        // the simulator's signedness propagation has its own catalogue of defects (C18)
+        signed: false,
+        // `<<<` / `>>>` need `$signed(…)` operands, selects of 1-bit variables are a known emitter finding
+        shifts: false,
+        selects: false,
+        div: false,
+        pow: false,
+        case_expr: false,
+        switch_expr: false,
+        dyn_selects: false,
+        casts: false,
+        sign_casts: false,
+        inside: false,
+        msb_lsb: false,
+        unsized_lits: false,
+        fill_lits: false,
+        case_stmt: false,
+        switch_stmt: false,
+        for_stmt: false,
+        op_assign: false,
+        partial_assign: false,
+        functions: false,
+        structs: false,
+        enums: false,
+        arrays: false,
+        consts: false,
+        params: false,
+        two_state_types: false,
+        ..base.clone()
+    }
+}
+
+pub fn apply_off(cfg: &mut GenCfg, off: &[&str]) {
+    for k in off {
+        match *k {
+            "for_stmt" => cfg.for_stmt = false,
+            "functions" => cfg.functions = false,
+            "op_assign" => cfg.op_assign = false,
+            "partial_assign" => cfg.partial_assign = false,
+            "switch_stmt" => cfg.switch_stmt = false,
+            "case_stmt" => cfg.case_stmt = false,
+            "switch_expr" => cfg.switch_expr = false,
+            "case_expr" => cfg.case_expr = false,
+            "inside" => cfg.inside = false,
+            "arrays" => cfg.arrays = false,
+            "structs" => cfg.structs = false,
+            "enums" => cfg.enums = false,
+            "consts" => cfg.consts = false,
+            "params" => cfg.params = false,
+            "insts" => cfg.insts = false,
+            "lets" => cfg.lets = false,
+            "dyn_selects" => cfg.dyn_selects = false,
+            "two_state_types" => cfg.two_state_types = false,
+            "pow" => cfg.pow = false,
+            "always_comb" => cfg.always_comb = false,
+            _ => {}
+        }
+    }
+}
+
+pub fn gen_cfg(ctx: &Ctx) -> GenCfg {
+    let mut c = GenCfg {
         max_width: if ctx.is_quick() { 80 } else { 200 },
         // x would be compared against a 2-state simulator: keep divisors / indices guarded
         unguarded_per_mille: 0,
         display: false,
         ..GenCfg::default()
-    }
+    };
+    apply_off(&mut c, DIALECT_OFF);
+    c
 }
 
 fn hexrow(row: &[Bv]) -> Vec<String> {
     row.iter().map(|v| v.to_string()).collect()
 }
 
-pub fn one_case(d: &mut Draw, cfg: &GenCfg, cycles: usize, stats: &Stats) -> Outcome {
+pub fn one_case(d: &mut Draw, cfg: &GenCfg, cycles: usize, stats: &Stats, strict: bool) -> Outcome {
+    // most designs stay within 64 bits (one known finding needs wider right-hand sides,
+    // and designs containing its shape are excluded); the rest go up to the tier's maximum
+    let mut cfg = cfg.clone();
+    cfg.max_width = [32u32, 64, 48, cfg.max_width][d.weighted(&[3, 3, 2, 2])];
+    let cfg = &cfg;
     let g = gen_design(d, cfg);
     let design = &g.design;
     let combo = draw_combo(d);
@@ -374,6 +456,12 @@ pub fn one_case(d: &mut Draw, cfg: &GenCfg, cycles: usize, stats: &Stats) -> Out
     let stim = gen_stimulus(d, design, cycles);
     let mut md = common::project_metadata();
     combo.apply(&mut md);
+    // shapes of confirmed findings: kept out of the main search, shown at a low rate
+    let sus = crate::suspects::suspects(design);
+    let show_known = d.chance(1, 12);
+    if !sus.is_empty() && !show_known {
+        return Outcome::skip(format!("excluded: design contains the shape of known finding {}", sus.join("+")));
+    }
 
     let built = match common::build(&text, &md) {
         Ok(b) => b,
@@ -524,7 +612,20 @@ pub fn one_case(d: &mut Draw, cfg: &GenCfg, cycles: usize, stats: &Stats) -> Out
         } else {
             "all-differ"
         };
-        let sig = format!("trace/{agree}");
+        let sig = match sus.first() {
+            Some(k) => format!("trace/{k}"),
+            None => format!("trace/unclassified/{agree}"),
+        };
+        // Outside the core dialect a disagreement in which the *emitted text* agrees
+        // with the independent reference evaluator (or the reference cannot tell) is a
+        // deviation of veryl's simulator from IEEE 1800 on statement-level features
+        // (the domain of C02 / C03 / C18).  It cannot be explained from the emitted
+        // text, so it is recorded, not reported (soundness: only explained
+        // disagreements are violations).  The text being the odd one out always is.
+        if !strict && sus.is_empty() && agree != "ref=veryl-sim" && agree != "all-differ" {
+            stats.unexplained(&format!("{agree}: output {} after step {si}", stim.outputs[oi].name), &text, &combo);
+            return Outcome::skip(format!("unexplained disagreement outside the core dialect ({agree}): recorded for the simulator checks"));
+        }
         let msg = format!(
             "output {} after step {si}: emitted SV (vsv) {} , veryl simulator {}'h{:x}, reference evaluator {}\nconfiguration {} with `{}` / `{}`",
             stim.outputs[oi].name,
@@ -586,6 +687,163 @@ pub fn one_case(d: &mut Draw, cfg: &GenCfg, cycles: usize, stats: &Stats) -> Out
     Outcome::pass(hash_str(&sample), nontrivial, classes, sample)
 }
 
+// ----- hand-written texts (reproducers of listed findings, developer probes) --------
+
+fn splitmix(s: &mut u64) -> u64 {
+    *s = s.wrapping_add(0x9E3779B97F4A7C15);
+    let mut z = *s;
+    z = (z ^ (z >> 30)).wrapping_mul(0xBF58476D1CE4E5B9);
+    z = (z ^ (z >> 27)).wrapping_mul(0x94D049BB133111EB);
+    z ^ (z >> 31)
+}
+
+pub fn combo_from(text: &str, clock_type: &str, reset_type: &str) -> Combo {
+    Combo {
+        clock_type: if clock_type == "negedge" { ClockType::NegEdge } else { ClockType::PosEdge },
+        reset_type: match reset_type {
+            "async_high" => ResetType::AsyncHigh,
+            "sync_low" => ResetType::SyncLow,
+            "sync_high" => ResetType::SyncHigh,
+            _ => ResetType::AsyncLow,
+        },
+        clock_kind: if text.contains("input clock_posedge") {
+            ClockKind::Posedge
+        } else if text.contains("input clock_negedge") {
+            ClockKind::Negedge
+        } else {
+            ClockKind::Abstract
+        },
+        reset_kind: if text.contains("input reset_async_high") {
+            ResetKind::AsyncHigh
+        } else if text.contains("input reset_async_low") {
+            ResetKind::AsyncLow
+        } else if text.contains("input reset_sync_high") {
+            ResetKind::SyncHigh
+        } else if text.contains("input reset_sync_low") {
+            ResetKind::SyncLow
+        } else {
+            ResetKind::Abstract
+        },
+    }
+}
+
+pub struct TextRun {
+    pub sv: String,
+    pub stim: Stimulus,
+    pub sv_rows: Vec<Vec<Bv>>,
+    pub veryl: vdesign::Trace,
+    /// the emitted text needed the select-of-scalar leniency
+    pub scalar_select: Option<String>,
+}
+
+/// Both simulators on a hand-written module `Top` (ports `clk` / `rst` are
+/// the clock / reset, every other input is data driven from a fixed PRNG;
+/// step 0 is a reset step when there is a reset).
+pub fn run_text(text: &str, combo: &Combo, steps: usize, seed: u64) -> Result<TextRun, String> {
+    let mut md = common::project_metadata();
+    combo.apply(&mut md);
+    let b = common::build(text, &md).map_err(|e| format!("{e:?}"))?;
+    let parsed = vsv::parse::parse(&b.sv).map_err(|e| e.to_string())?;
+    let srcs = [parsed];
+    let mut scalar_select = None;
+    let mut sim = match Sim::from_parsed(&srcs, "prj_Top") {
+        Ok(s) => s,
+        Err(u) if u.reason.contains("select of a scalar") => {
+            scalar_select = Some(u.reason.clone());
+            Sim::from_parsed_opts(&srcs, "prj_Top", true).map_err(|e| e.to_string())?
+        }
+        Err(u) => return Err(u.to_string()),
+    };
+    let mut stim = Stimulus::default();
+    for p in sim.ports() {
+        let spec = vdesign::PortSpec {
+            name: p.name.clone(),
+            width: p.width,
+        };
+        match (p.name.as_str(), p.dir) {
+            ("clk", _) => stim.clock = Some(p.name.clone()),
+            ("rst", _) => stim.reset = Some(p.name.clone()),
+            (_, sva::Dir::Input) => stim.inputs.push(spec),
+            _ => stim.outputs.push(spec),
+        }
+    }
+    let mut s = seed;
+    for i in 0..steps.max(2) {
+        let values = stim
+            .inputs
+            .iter()
+            .map(|p| {
+                let mut v = num_bigint::BigUint::from(0u32);
+                for _ in 0..p.width.div_ceil(64) {
+                    v = (v << 64) | num_bigint::BigUint::from(splitmix(&mut s));
+                }
+                v & ((num_bigint::BigUint::from(1u32) << p.width) - 1u32)
+            })
+            .collect();
+        stim.steps.push(vdesign::StimStep {
+            reset: i == 0 && stim.reset.is_some(),
+            values,
+        });
+    }
+    let m = combo.meaning();
+    let pins = Pins {
+        clock: stim.clock.clone().map(|c| (c, m.clock_posedge)),
+        reset: stim.reset.clone().map(|r| (r, m.reset_high)),
+    };
+    let sv_rows = run_sv(&mut sim, &pins, &stim).map_err(|e| e.to_string())?;
+    let a = Analyzed {
+        ir: b.ir,
+        warnings: b.warnings,
+    };
+    let veryl = a.run("Top", &combo.sim_config(&md), &stim)?;
+    Ok(TextRun {
+        sv: b.sv,
+        stim,
+        sv_rows,
+        veryl,
+        scalar_select,
+    })
+}
+
+/// Reproducer of a listed finding: `{veryl, clock_type, reset_type, steps, seed, key}`.
+pub fn reproducer(payload: &serde_json::Value) -> Outcome {
+    let s = |k: &str| payload.get(k).and_then(|v| v.as_str()).unwrap_or("").to_string();
+    let text = s("veryl");
+    let key = s("key");
+    let combo = combo_from(&text, &s("clock_type"), &s("reset_type"));
+    let steps = payload.get("steps").and_then(|v| v.as_u64()).unwrap_or(6) as usize;
+    let seed = payload.get("seed").and_then(|v| v.as_u64()).unwrap_or(1);
+    let r = match run_text(&text, &combo, steps, seed) {
+        Ok(r) => r,
+        Err(e) => return Outcome::skip(format!("reproducer cannot run: {}", e.lines().next().unwrap_or(""))),
+    };
+    if key == "emitted-sv/select-of-scalar" {
+        return match r.scalar_select {
+            Some(why) => Outcome::fail(key, format!("the emitted text selects from a scalar ({why})"), json!({"veryl": text, "sv": r.sv})),
+            None => Outcome::pass(hash_str(&text), false, vec!["reproducer".into()], text),
+        };
+    }
+    for (si, (srow, vrow)) in r.sv_rows.iter().zip(&r.veryl.steps).enumerate() {
+        for (oi, (sv, v)) in srow.iter().zip(vrow).enumerate() {
+            let vb = to_bv(&v.value, r.stim.outputs[oi].width);
+            let differs = (0..sv.width()).any(|k| !sv.bit(k).is_xz() && sv.bit(k) != vb.bit(k));
+            if differs {
+                return Outcome::fail(
+                    key,
+                    format!("output {} after step {si}: emitted SV (vsv) {sv}, veryl simulator {}'h{:x}", r.stim.outputs[oi].name, sv.width(), v.value),
+                    json!({
+                        "veryl": text, "veryl_toml": combo.toml(), "sv": r.sv,
+                        "stimulus": r.stim.steps.iter().map(|s| json!({"reset": s.reset, "inputs": r.stim.inputs.iter().zip(&s.values).map(|(p, v)| format!("{}={}'h{:x}", p.name, p.width, v)).collect::<Vec<_>>()})).collect::<Vec<_>>(),
+                        "sv_trace": r.sv_rows.iter().map(|x| hexrow(x)).collect::<Vec<_>>(),
+                        "veryl_trace": r.veryl.steps.iter().map(|x| x.iter().map(|s| format!("{:x}", s.value)).collect::<Vec<_>>()).collect::<Vec<_>>(),
+                    }),
+                );
+            }
+        }
+    }
+    Outcome::pass(hash_str(&text), false, vec!["reproducer".into()], text)
+}
+
 #[derive(Default)]
 pub struct Stats {
     inner: std::sync::Mutex<StatsInner>,
@@ -596,11 +854,20 @@ struct StatsInner {
     unsupported: BTreeMap<String, u64>,
     compared_bits: u64,
     x_bits: u64,
+    unexplained: u64,
+    unexplained_samples: Vec<String>,
 }
 
 impl Stats {
     fn unsupported(&self, u: &vsv::Unsupported) {
         *self.inner.lock().unwrap().unsupported.entry(u.class()).or_default() += 1;
+    }
+    fn unexplained(&self, what: &str, text: &str, combo: &Combo) {
+        let mut g = self.inner.lock().unwrap();
+        g.unexplained += 1;
+        if g.unexplained_samples.len() < 3 {
+            g.unexplained_samples.push(format!("// {what}; {} clock={} reset={}\n{text}", combo.label(), combo.clock_kw(), combo.reset_kw()));
+        }
     }
     fn add_compared(&self, c: u64, x: u64) {
         let mut g = self.inner.lock().unwrap();
@@ -633,20 +900,28 @@ fn golden_coverage(ctx: &Ctx) {
 }
 
 pub fn run(ctx: &Ctx) {
-    let n = ctx.scale(400, 20_000);
+    let n = ctx.scale(1500, 40_000);
     let cycles = if ctx.is_quick() { 24 } else { 100 };
     let cfg = gen_cfg(ctx);
     let stats = std::sync::Arc::new(Stats::default());
     golden_coverage(ctx);
+    ctx.run_payloads("reproducer", reproducer);
     {
         let stats = stats.clone();
-        ctx.run("design-config", CaseCfg::cases(n).choices(12_000).stack_mb(16), move |d: &mut Draw| one_case(d, &cfg, cycles, &stats));
+        let proto = protocol_cfg(&cfg);
+        ctx.run("protocol-dialect", CaseCfg::cases(n).choices(12_000).stack_mb(16), move |d: &mut Draw| one_case(d, &proto, cycles, &stats, true));
+    }
+    {
+        let stats = stats.clone();
+        ctx.run("wide-dialect", CaseCfg::cases(n).choices(12_000).stack_mb(16), move |d: &mut Draw| one_case(d, &cfg, cycles, &stats, false));
     }
     {
         let g = stats.inner.lock().unwrap();
         ctx.note("vsv_unsupported", json!(g.unsupported));
         ctx.note("compared_bits", json!(g.compared_bits));
         ctx.note("sv_x_bits_not_compared", json!(g.x_bits));
+        ctx.note("unexplained_simulator_deviations_outside_core_dialect", json!(g.unexplained));
+        ctx.note("unexplained_samples", json!(g.unexplained_samples));
     }
     ctx.assume("vsv (this harness' IEEE 1800 simulator built on vbv) is the \"standard SystemVerilog simulator\": no external one exists in the sandbox");
     ctx.assume("bits that are x/z in the SystemVerilog simulation are not compared with the 2-state veryl simulator");
